@@ -22,6 +22,8 @@ from vlib.stubs import Boom, Ctx, FakePath
 SRC_TEXT = "import os\na = 1\nb = 'x'\n"
 NEW_TEXT = "import os\na = 2\nb = 'x'\n"
 NEW2_TEXT = "import os\na = 2\nb = 'y'\nc = 3\n"
+LATIN1_SRC = b"# -*- coding: latin-1 -*-\nimport os\na = 1\nb = '\xe9'\n"
+BEFORE = {0: SRC_TEXT.encode(), 1: b"a = '\xff'\n", 2: b"def (:\n", 3: b"", 4: LATIN1_SRC}
 SRC = cst.parse_module(SRC_TEXT)
 NEW = cst.parse_module(NEW_TEXT)
 NEW2 = cst.parse_module(NEW2_TEXT)
@@ -60,7 +62,12 @@ def mk_transformer(raises: bool, changes: bool, alters: bool, new_tree=None, lin
                 raise Boom()
             if changes:
                 file_context.codemod_changes.append(Change(lineNumber=line, description="d", findings=file_context.get_findings_for_location(line)))
-            return (new_tree or NEW) if alters else tree
+            if not alters:
+                return tree
+            # a local edit that keeps every other line of whatever was parsed
+            if new_tree is None:
+                return cst.parse_module(tree.code.replace("a = 1", "a = 2"))
+            return cst.parse_module(tree.code + "c = 3\n")
 
     return T
 
@@ -82,7 +89,8 @@ class Obs:
 
 
 def run_libcst(content_kind: int, dry_run: bool, t1: tuple, t2: tuple, n_findings: int, results_none: bool = False, fp=None):
-    """content_kind: 0 valid source, 1 invalid UTF-8, 2 syntax error, 3 file vanished.
+    """content_kind: 0 valid source, 1 invalid UTF-8, 2 syntax error, 3 file vanished, 4 latin-1 source with a
+    PEP 263 coding cookie and a non-ASCII character (not valid UTF-8: codemodder reads UTF-8 only).
     t1/t2: (raises, changes, alters) of two chained stub transformers."""
     if fp is None:
         if content_kind == 0:
@@ -91,8 +99,10 @@ def run_libcst(content_kind: int, dry_run: bool, t1: tuple, t2: tuple, n_finding
             fp = FakePath(b"a = '\xff'\n")
         elif content_kind == 2:
             fp = FakePath(b"def (:\n")
-        else:
+        elif content_kind == 3:
             fp = FakePath(b"", vanished=True)
+        else:
+            fp = FakePath(LATIN1_SRC)
     results = None if results_none else mk_results(n_findings)
     fc = FileContext(Path("/d"), fp, [], [], results)
     pipe = LibcstTransformerPipeline(mk_transformer(*t1), mk_transformer(t2[0], t2[1], t2[2], NEW2))
@@ -226,7 +236,7 @@ def run_xml(bad_xml: bool, vanished: bool, dry_run: bool, target: bool, n_findin
 def warm():
     ChangeSet(path="p", diff="d", changes=[Change(lineNumber=1, description="d")])
     create_diff_from_tree(SRC, NEW)
-    for k in range(4):
+    for k in range(5):
         run_libcst(k, False, (False, True, True), (False, True, True), 1)
     run_libcst(0, True, (True, True, True), (False, False, False), 2)
     for k in range(3):
